@@ -461,6 +461,17 @@ func (w *World) EndBlock(dt time.Duration) (res StepResult) {
 	return
 }
 
+// ChangeParams is what an accepted parameter-change proposal does (x/params writes the new
+// values between blocks). Only parameters whose change leaves every property well-defined
+// are ever changed by the workloads: the timeout bound, tax, slash fraction and the two
+// refund periods - never the minimum deposit terms or the base denomination.
+func (w *World) ChangeParams(p types.Params) (res StepResult) {
+	w.a.k.SetParams(w.ctx, p)
+	w.params = p
+	res.OK = true
+	return
+}
+
 // Restart does what a zero-height restart of the chain does to this module: prepare for
 // the zero-height export, export the genesis, wipe the module's store and initialise it
 // again from that genesis. Bank state (adjusted by the preparation's refunds) is kept,
